@@ -9,9 +9,12 @@ EXPLANATION = ("All paths of the TCP connection constructor are enumerated (path
                "before the handshake - extended(StartTLS) - the driver turn's result and `success()?` of the response are both required "
                "(Ok) before into_parts / the handshake, `ldaps` paths issue no LDAP operation before the handshake, and the handle is not "
                "cloned; W3 the TLS transport is framed with a fresh Framed built from parts.io and parts.codec only - Framed::from_parts, "
-               "which would keep cleartext bytes read before the handshake, is never called; W4 certificate verification is disabled only "
-               "on the path where settings.no_tls_verify is true, a caller-supplied connector is used as given, and the handshake is given "
-               "the URL's host name. Not decided: what native-tls / rustls verify (trusted); server behaviours as runtime events.")
+               "which would keep cleartext bytes read before the handshake, is never called; W4 the request to skip certificate verification is the public call set_no_tls_verify(true): the private field it writes and "
+               "the value that stands for the request are read from the setter (not from a name); every body that builds a settings value "
+               "(new, the Default impl - derived or hand-written -, Clone) leaves that field at 'not requested'; the default connector / "
+               "configuration disables verification exactly on the paths that found the request in the field, is built from the "
+               "connection's own settings, a caller-supplied connector is used as given, and the handshake is given the URL's host name; "
+               "W5/W7/W8 the settings' Clone keeps, and the starttls() getter returns, what the setters recorded (fields anchored by role). Not decided: what native-tls / rustls verify (trusted); server behaviours as runtime events.")
 TRUSTED = ['native-tls / rustls certificate and host name verification', 'tokio_util Framed::into_parts / Decoder::framed']
 UNDECIDED = ['TLS library behaviour', 'server behaviour at run time']
 ASSUMPTIONS = []
